@@ -260,8 +260,9 @@ def r14_5(chk, facts):
                     elif A.ref_name(r) in idx_names and any(A.callee_name(z) == 'size' for z in A.calls_in(l)):
                         tests.add((G.FLIP[op], bool(lab)))
                 if nm == 'insert':
-                    ok = ((('>', False) in tests or ('<=', True) in tests) and (('==', False) in tests or ('!=', True) in tests)) or ('<', True) in tests or ('>=', False) in tests
-                    want = 'index > size() rejected and index == size() handled by appending'
+                    # add semantics (RFC 6901 / 6902): index == size() is legal and appends, so the rejection must be `>` and not `>=`
+                    ok = (('>', False) in tests or ('<=', True) in tests) and (('==', False) in tests or ('!=', True) in tests) and ('>=', False) not in tests and ('<', True) not in tests
+                    want = 'exactly index > size() rejected, index == size() handled by appending'
                 else:
                     ok = ('>=', False) in tests or ('<', True) in tests
                     want = 'index >= size() rejected'
